@@ -530,18 +530,19 @@ def engine_hammer(prop, tier, seed, work):
     """many short free-running rounds of a sender thread against the spinning loop thread (drive_hammer); the summary is
     judged by ChanHammerTrace.tla.  Aims at windows between library steps that have no yield point in between."""
     res = Result()
-    n = 50000 if tier == "quick" else 400000
-    chan = [{"id": "hm%d_unb" % seed, "kind": "chan", "rounds": n, "bound": -1}, {"id": "hm%d_b2" % seed, "kind": "chan", "rounds": n // 2, "bound": 2},
-            {"id": "hm%d_b1" % seed, "kind": "chan", "rounds": n // 2, "bound": 1}]
-    ping = [{"id": "hm%d_ping" % seed, "kind": "ping", "rounds": n}]
+    n = 300000 if tier == "quick" else 2000000
+    nd = 20000 if tier == "quick" else 200000
+    chan = [{"id": "hm%d_unb" % seed, "kind": "chan", "rounds": n, "bound": -1}, {"id": "hm%d_b2" % seed, "kind": "chan", "rounds": n // 4, "bound": 2},
+            {"id": "hm%d_b1" % seed, "kind": "chan", "rounds": n // 4, "bound": 1}, {"id": "hm%d_chandrop" % seed, "kind": "chandrop", "rounds": nd}]
+    ping = [{"id": "hm%d_ping" % seed, "kind": "ping", "rounds": n}, {"id": "hm%d_pingdrop" % seed, "kind": "pingdrop", "rounds": nd}]
     exe = [{"id": "hm%d_exec" % seed, "kind": "exec", "rounds": n}]
-    wk = [{"id": "hm%d_wakeup" % seed, "kind": "wakeup", "rounds": n}]
-    scns = {"C04": chan, "C03": ping, "C10": exe, "C02": chan[:1] + ping + exe, "C11": wk}[prop]
+    wk = [{"id": "hm%d_wakeup" % seed, "kind": "wakeup", "rounds": n // 4}]
+    scns = {"C04": chan, "C03": ping, "C10": exe, "C02": chan[:1] + ping[:1] + exe, "C11": wk}[prop]
     sp, tr = os.path.join(work, "hammer_scn.ndjson"), os.path.join(work, "hammer_trace.ndjson")
     with open(sp, "w") as f:
         for s in scns:
             f.write(json.dumps(s) + "\n")
-    sh([BIN + "/drive_hammer", sp, tr], timeout=300)
+    sh([BIN + "/drive_hammer", sp, tr], timeout=900)
     verdict, _, _ = tlc_trace("ChanHammerTrace", tr, work)
     res.traces += verdict["scenarios"]
     res.evaluations += len(scns)
